@@ -93,6 +93,9 @@ def prime_numba() -> None:
         lambda: pp.Exporter(pp.CartGrid([1, 1, 1]), "prime"),
         lambda: pp.matrix_operations.invert_diagonal_blocks(sps.identity(4, format="csr"), np.array([2, 2], dtype=np.int64), method="numba"),
         lambda: pp.meshing.cart_grid([np.array([[0, 2], [1, 1]]), np.array([[1, 1], [0, 2]])], [2, 2]),
+        # 3-d fracture splitting goes through networkx.Graph(<sparse matrix>), whose first call imports pandas (seconds,
+        # much more under load): done once here, inherited by the forked workers
+        lambda: pp.meshing.cart_grid([np.array([[1, 1, 1, 1], [0, 2, 2, 0], [0, 0, 2, 2]]), np.array([[0, 2, 2, 0], [1, 1, 1, 1], [0, 0, 2, 2]])], [2, 2, 2]),
     ):
         try:
             job()
